@@ -84,6 +84,17 @@ TRUSTED = [
     "region, omp_get_max_threads, a value read before the region) is a source-level pattern match, cross-checked with clang's AST",
     "execution contexts exercised: top level; inside an outer parallel region of 3 threads (nested off / on); dynamic "
     "adjustment; OMP_THREAD_LIMIT=2; the model quantifies over every team size 1..omp_get_max_threads()",
+    "wave 4: the translator's reading of iterators / pointers into shared containers is a source pattern (a local assigned "
+    "from SHARED.begin()/end()/data()/&SHARED[e] or from another such alias; writes `*it = `, `*it++ = `, `it[e] = `, `it->m = `, "
+    "the alias as output position of a standard algorithm; a non-const reference / pointer bound to `c ? a : b`): every such write "
+    "is AEscape / AOpaque (rejected); Par_Claim_Model is an abstract machine (buffer generations, handles) of the claim-then-fill "
+    "pattern written by hand, not derived from the C++; libstdc++'s growth rule is mirrored but nothing depends on it",
+    "wave 4 search phase: numeric constants of the flagged function are read from the source text (integer / hex / 1eN literals, "
+    "shifts of one) and taken as candidate size thresholds for the natural size measures of the region (k*k*N, k*N, N; N, N*N, "
+    "landmarks); big weight-matrix cases use window neighbourhoods (i+1..i+k mod N) instead of exact k-NN, compare a signature of "
+    "the sparse result (total nnz; per column nnz, sum, weighted sum) and make ONE callback evaluation slow (it waits until no "
+    "other thread has called the callback for 100 ms); ThreadSanitizer reports are kept only when both stacks reach tapkee code "
+    "before any OpenMP-runtime frame",
     "OpenMP runtime: a critical section is atomic, the end of the parallel region is a barrier; data-race-free "
     "programs are sequentially consistent (C++/OpenMP memory model)",
     "Eigen's own threading is not modelled (results of Eigen kernels inside one iteration are taken as values)",
@@ -290,6 +301,9 @@ def large_cases(ctx, quick):
                    "seed": rng.randrange(1, 10 ** 6), "int": 0, "combos": LARGE_COMBOS},
                   {"kind": "run", "id": 7005, "region": "tsne", "N": 2500, "k": 20, "d": 2, "L": 50, "dim": 4,
                    "seed": rng.randrange(1, 10 ** 6), "int": 0, "combos": LARGE_COMBOS}]
+        # wave 4: weight matrices with more than 2^22 triplets (k*k*N = 5.0e6): window neighbourhoods, one slow callback
+        cases += [{"kind": "run", "id": 7006 + q, "region": region, "N": 5600, "k": 30, "d": 2, "L": 4, "dim": 3,
+                   "seed": rng.randrange(1, 10 ** 6), "int": 0, "combos": LARGE_COMBOS} for q, region in enumerate(SPARSE)]
     return cases
 
 
